@@ -679,6 +679,7 @@ class BaseConnector:
             if self._limit_per_host:
                 self._acquired_per_host[key].add(placeholder)
 
+            new_proto: ResponseHandler | None = None
             try:
                 # Traces are done inside the try block to ensure that the
                 # that the placeholder is still cleaned up if an exception
@@ -686,12 +687,16 @@ class BaseConnector:
                 if traces:
                     for trace in traces:
                         await trace.send_connection_create_start()
-                proto = await self._create_connection(req, traces, timeout)
+                proto = new_proto = await self._create_connection(req, traces, timeout)
                 if traces:
                     for trace in traces:
                         await trace.send_connection_create_end()
             except BaseException:
                 self._release_acquired(key, placeholder)
+                if new_proto is not None:
+                    # Established but never handed out: nothing else would
+                    # close it.
+                    new_proto.close()
                 raise
             else:
                 if self._closed:
@@ -787,6 +792,9 @@ class BaseConnector:
                             await trace.send_connection_reuseconn()
                         except BaseException:
                             self._release_acquired(key, proto)
+                            # No longer pooled nor acquired: close it, or
+                            # nothing would ever close it.
+                            proto.close()
                             raise
                 return Connection(self, key, proto, self._loop)
 
